@@ -64,22 +64,45 @@ class Fail:
         key = (b, state)
         if key in self._memo:
             return self._memo[key]
-        self._memo[key] = set()  # cycle guard
-        res = set()
-        st = state
-        for k in self.zd.get(b, []):
-            st = k
-        t = self.body.blocks[b]["t"]
-        if t["k"] == "return":
-            res.add(st)
-        elif not self.succ[b]:
-            res.add("panic")
-        else:
-            for s in self.succ[b]:
-                res |= self.outcomes(s, st)
-        self._memo[key] = res
-        # fixpoint for cycles: one more pass if something was added through a back edge
-        return res
+        # collect the reachable (block, last-def state) graph, then solve outcome sets to a fixpoint (loops!)
+        nodes = {}
+        order = []
+        stack = [key]
+        while stack:
+            n = stack.pop()
+            if n in nodes:
+                continue
+            blk, st = n
+            for k in self.zd.get(blk, []):
+                st = k
+            t = self.body.blocks[blk]["t"]
+            base = set()
+            nxt = []
+            if t["k"] == "return":
+                base.add(st)
+            elif not self.succ[blk]:
+                base.add("panic")
+            else:
+                nxt = [(s, st) for s in self.succ[blk]]
+            nodes[n] = (base, nxt)
+            order.append(n)
+            for m in nxt:
+                if m not in nodes:
+                    stack.append(m)
+        res = {n: set(nodes[n][0]) for n in nodes}
+        changed = True
+        while changed:
+            changed = False
+            for n in reversed(order):
+                acc = res[n]
+                before = len(acc)
+                for m in nodes[n][1]:
+                    acc |= res[m]
+                if len(acc) != before:
+                    changed = True
+        for n in nodes:
+            self._memo.setdefault(n, res[n])
+        return res[key]
 
     def edge_fails(self, a, b):
         o = self.outcomes(b, "unset")
